@@ -20,7 +20,7 @@
 From Coq Require Import ZArith QArith List Bool Arith Permutation.
 From Labella Require Base.QUtil Layout.Layer.
 From Labella Require Import Layout.Distribute Layout.ForceState Layout.ForceStateProofs
-  Layout.Force Layout.ForceProofs.
+  Layout.Force Layout.ForceProofs Layout.SimpleOrderProofs.
 Import ListNotations.
 Open Scope nat_scope.
 
@@ -101,17 +101,12 @@ Theorem C06_tie_order : forall l k e tbl prev lay,
 Proof. intros; split; [apply position_sort_stable|apply target_sort_stable]. Qed.
 Print Assumptions C06_tie_order.
 
-(* ... and in every layout that needs no split (algorithm none; no layer width;
-   labels within the budget: the cases of C04_single, any algorithm, i.e. for
-   overlap exactly when no greedy round runs) two labels with equal data
-   positions are placed in their input order, whatever their widths.
-   FULL STATEMENT WANTED (C06_tie_order_input_order): the same for algorithm
-   simple with several layers.  NOT PROVED: it needs the invariant that every
-   layer list of `simple` is in sorted-index order and that the solver keeps
-   that order layer by layer (targets of layer j+1 are the positions of layer
-   j).  That case is covered by the oracle of the tie on every run, not by a
-   theorem. *)
-Theorem C06_tie_order_input_order_partial : forall st l1 a l2 b l3,
+(* ... and the input order is kept in the placement, for algorithm none, for
+   algorithm simple, and for overlap when no greedy round runs:
+   (1) in every layout that needs no split (algorithm none; no layer width;
+   labels within the budget: the cases of C04_single, any algorithm) two labels
+   with equal data positions are placed in their input order, whatever their widths *)
+Theorem C06_tie_order_single_layer : forall st l1 a l2 b l3,
   engine_dom (st_opts st) (st_nodes st) -> NoDup (map n_id (st_nodes st)) -> lineSp_ok (st_opts st) ->
   distribute (dopts_of_eopts (st_opts st)) (map label_of (st_nodes st)) =
     Some [all_labels (length (st_nodes st))] ->
@@ -119,7 +114,32 @@ Theorem C06_tie_order_input_order_partial : forall st l1 a l2 b l3,
   forall a' b', In a' (st_nodes (force_compute st)) -> In b' (st_nodes (force_compute st)) ->
     n_id a' = n_id a -> n_id b' = n_id b -> (n_cur a' <= n_cur b')%Q.
 Proof. exact tie_single_layer_real. Qed.
-Print Assumptions C06_tie_order_input_order_partial.
+Print Assumptions C06_tie_order_single_layer.
+
+(* (2) algorithm simple, any number of layers: every layer list is in the order
+   of the position-sorted label list (labels and stubs interleaved), layer 0's
+   targets ascend along it, the solver keeps that order, and the targets of the
+   next layer are those positions; so two labels that end up in the SAME layer
+   are placed in the order of the sorted list ... *)
+Theorem C06_simple_order : forall st a b,
+  e_alg (st_opts st) = AlgSimple ->
+  engine_dom (st_opts st) (st_nodes st) -> NoDup (map n_id (st_nodes st)) -> lineSp_ok (st_opts st) ->
+  before (remove_stub a) (remove_stub b) (isort nleb (map remove_stub (st_nodes st))) ->
+  forall a' b', In a' (st_nodes (force_compute st)) -> In b' (st_nodes (force_compute st)) ->
+    n_id a' = n_id a -> n_id b' = n_id b -> n_layer a' = n_layer b' -> (n_cur a' <= n_cur b')%Q.
+Proof. exact simple_order_real. Qed.
+Print Assumptions C06_simple_order.
+
+(* ... in particular labels that share a data position (whatever their widths)
+   and share a layer are placed in input order *)
+Theorem C06_tie_order_simple : forall st l1 a l2 b l3,
+  e_alg (st_opts st) = AlgSimple ->
+  engine_dom (st_opts st) (st_nodes st) -> NoDup (map n_id (st_nodes st)) -> lineSp_ok (st_opts st) ->
+  st_nodes st = l1 ++ a :: l2 ++ b :: l3 -> (n_pos a == n_pos b)%Q ->
+  forall a' b', In a' (st_nodes (force_compute st)) -> In b' (st_nodes (force_compute st)) ->
+    n_id a' = n_id a -> n_id b' = n_id b -> n_layer a' = n_layer b' -> (n_cur a' <= n_cur b')%Q.
+Proof. exact tie_simple_real. Qed.
+Print Assumptions C06_tie_order_simple.
 
 (* ... but the statement's "otherwise their mutual order follows the input
    order" is FALSE for algorithm overlap once a greedy round runs: the loop
@@ -242,7 +262,7 @@ Proof.
     discriminate H.
 Qed.
 
-(* hypotheses of C06_tie_order_input_order_partial: algorithm none on the dataset;
+(* hypotheses of C06_tie_order_single_layer: algorithm none on the dataset;
    labels 9 (804, 50) and 10 (804, 70) are tied with different widths and are
    placed in input order *)
 Definition none_opts : eopts := mkEopts AlgNone (Some 0%Q) None (1 # 2) 3 1 None.
@@ -255,4 +275,22 @@ Proof.
   split; [vm_compute; reflexivity|].
   split; [apply DistributeProofs.dist_dom_b_sound; vm_compute; reflexivity|].
   split; [exact I|vm_compute; reflexivity].
+Qed.
+
+(* hypotheses of C06_tie_order_simple / C06_simple_order: algorithm simple, three
+   layers; labels 9 (804, 50) and 12 (804, 64) are tied, differ in
+   width, share layer 0 and are placed in input order *)
+Definition simple_opts : eopts := mkEopts AlgSimple (Some 0%Q) (Some 904%Q) (3 # 8) 3 1 None.
+Definition ex_labels2 : list label :=
+  map (fun p => mkLabel (inject_Z (fst p)) (inject_Z (snd p)))
+    [(1, 50); (2, 50); (3, 50); (3, 50); (3, 50); (304, 50); (454, 50); (454, 50); (454, 50);
+     (804, 50); (804, 70); (804, 50); (804, 64); (854, 50); (854, 50)]%Z.
+Example C06_ex_tie_simple :
+  engine_dom simple_opts (label_nodes ex_labels2) /\ lineSp_ok simple_opts /\
+  length (match st_layers (layout simple_opts ex_labels2) with Some l => l | None => [] end) = 3 /\
+  map snd (firstn 1 (skipn 9 (force_out (layout simple_opts ex_labels2)))) ++
+  map snd (firstn 1 (skipn 12 (force_out (layout simple_opts ex_labels2)))) = [(0, 765%Q); (0, 832%Q)].
+Proof.
+  split; [apply DistributeProofs.dist_dom_b_sound; vm_compute; reflexivity|].
+  split; [exact I|]. split; vm_compute; reflexivity.
 Qed.
